@@ -28,6 +28,8 @@ def _wf_prog(item):
 
 
 def run(prop, tier, family_programs=()):
+    from .. import families
+    corpus.EXTRA_SUBS = families.wf_subs()
     pfx = prop.lower() + ":"
     rep = Report(prop, tier, "other")
     B = corpus.load_behaviors()
